@@ -36,5 +36,8 @@ def extract_block(prog, qname: str, new_name: str, start_pred, n_stmts_pred, par
     mod = qname.split(":")[0]
     q = f"{mod}:{new_name}"
     prog.funcs[q] = f
+    if not hasattr(prog, 'synthetic'):
+        prog.synthetic = set()
+    prog.synthetic.add(q)     # a copy of statements that are scanned in place, inside the function they come from
     prog.sources[mod + "$" + new_name] = "\n".join(ast.unparse(s) for s in found)
     return q, [ast.unparse(s) for s in found]
